@@ -12,11 +12,14 @@ use std::net::IpAddr;
 use std::str::FromStr;
 use std::sync::atomic::{AtomicBool, Ordering};
 use std::sync::Arc;
+use std::time::Duration;
 use tokio::io::{AsyncRead, AsyncReadExt, AsyncWrite, AsyncWriteExt};
 use tokio::sync::{mpsc, Notify};
 
 pub(crate) const MAX_RAW_HEADERS_SIZE: usize = 1024;
 pub(crate) const MAX_HEADERS_NUM: usize = 32;
+/// How long a closing session waits for the pipe to pick up the upload chunk handed to it
+const UPLOAD_HANDOVER_TIMEOUT: Duration = Duration::from_secs(1);
 
 pub(crate) struct Http1Codec<IO> {
     state: State,
@@ -270,7 +273,9 @@ where
             self.transport_stream.write_all_buf(&mut chunk).await?;
         }
         self.transport_stream.flush().await?;
-        let _ = self.upload_tx.reserve().await;
+        // the pipe takes nothing from the upload channel while the peer does not read:
+        // such a peer must not keep the client connection open
+        let _ = tokio::time::timeout(UPLOAD_HANDOVER_TIMEOUT, self.upload_tx.reserve()).await;
         self.transport_stream.shutdown().await
     }
 
